@@ -65,6 +65,13 @@ fn main() {
         let hays = vec!["aab bbb abb", "aabbb", "xay xby", "ab", "xyxy", "yxy", "Ab aB AB", "zz", "abab", "b"];
         let qs = vec![(0, 0, 0), (0, 1, 0), (1, 2, 0), (1, 3, 1), (2, 4, 1), (2, 5, 0), (3, 6, 0), (3, 7, 0), (0, 8, 2), (1, 9, 0)];
         (specs.into_iter().map(|(a, b)| (a.to_string(), b.to_string())).collect(), hays.into_iter().map(|s| s.to_string()).collect(), qs)
+    } else if seed % 1000 == 998 {
+        // fixed many-threads scenario (10 threads on one object): fixed-size tables of
+        // per-thread slots overflow only when more searches are in flight than slots
+        let specs = vec![("[à-ÿ]+", ""), ("[^a-zà-ÿ\\s]+", "")];
+        let hays = vec!["àé ÿx éé", "xàyéz", "ÀÉ àé", "éàÿ", "x y z", "ÿ"];
+        let qs = vec![(0, 0, 0), (0, 1, 0), (0, 2, 0), (0, 3, 0), (1, 0, 0), (1, 1, 0), (1, 2, 0), (0, 4, 0), (0, 5, 0), (1, 4, 0)];
+        (specs.into_iter().map(|(a, b)| (a.to_string(), b.to_string())).collect(), hays.into_iter().map(|s| s.to_string()).collect(), qs)
     } else if seed % 1000 == 999 {
         // fixed large-Unicode-class scenario: a class with hundreds of intervals, haystacks whose
         // characters come from code-point pages that collide in small direct-mapped tables
@@ -101,7 +108,7 @@ fn main() {
     };
     let nested_expected = nested(&fresh, &hays);
 
-    let nthreads = 3;
+    let nthreads = if seed % 1000 == 998 { 10 } else { 3 };
     let mut handles = Vec::new();
     for t in 0..nthreads {
         let res = res.clone();
